@@ -130,6 +130,9 @@ pub struct WCfg {
     /// C14: payment `hash_hex` is frozen (none of its events is ever taken) once `after` of its events happened
     pub freeze: Option<Freeze>,
     pub max_stalls: u32,
+    /// `Hold` deviations: the next event is applied without letting the plugin run, so that it reaches the plugin
+    /// together with the event after it
+    pub max_holds: u32,
     /// default resolution of a part is failure (pay fails on the default path)
     pub default_part_fails: bool,
     /// C13 differential: request labels of the baseline run (same scenario without the pass-through HTLCs)
@@ -176,6 +179,7 @@ impl WCfg {
             probe: false,
             freeze: None,
             max_stalls: 2,
+            max_holds: 0,
             default_part_fails: false,
             baseline_reqs: None,
             max_depth: 90,
@@ -264,6 +268,9 @@ enum Ev {
     Crash { apply: Vec<u64>, lose: bool, downtime_ms: u64 },
     Select(u32),
     Stall(u64),
+    Hold,
+    /// let the plugin run (only offered when a held-back event would otherwise never reach it)
+    Flush,
 }
 
 struct CountPolls<F> {
@@ -349,6 +356,11 @@ pub struct W {
     prefix_failed: bool,
     req_labels: Vec<String>,
     stalls: u32,
+    holds: u32,
+    hold_armed: bool,
+    held_evs: Vec<Ev>,
+    /// answers handed over while the plugin was held back: they reach it (and are time-stamped) at the flush
+    held_notes: Vec<(serde_json::Value, Method, crate::sim::SimResult)>,
     /// consecutive default time steps during which the plugin neither answered an HTLC nor issued a payment-related request
     idle_advances: u32,
     a_events: u32,
@@ -768,6 +780,21 @@ impl W {
                 }
             }
         }
+        if !self.held_evs.is_empty() && free.is_empty() {
+            free.push((Ev::Flush, "Flush".to_string()));
+        }
+        if !self.in_probe && !self.hold_armed && self.holds < cfg.max_holds {
+            alts.push((Ev::Hold, "Hold".to_string()));
+        }
+        if self.hold_armed {
+            // only events that merely hand something to the plugin / change the node may be held back
+            let ok = |e: &Ev| matches!(e, Ev::Answer(_) | Ev::Fault { .. } | Ev::Deliver(_) | Ev::Spawn(_) | Ev::Resolve(..) | Ev::End(..));
+            free.retain(|e| ok(&e.0));
+            alts.retain(|e| ok(&e.0));
+            if free.is_empty() && alts.is_empty() {
+                free.push((Ev::Flush, "Flush".to_string()));
+            }
+        }
         let mut out = Vec::new();
         for (n, (e, l)) in free.into_iter().enumerate() {
             out.push((
@@ -787,6 +814,10 @@ impl W {
     // ------------------------------------------------------------ transition plumbing
 
     fn note_answer(&mut self, params: &serde_json::Value, method: Method, res: &crate::sim::SimResult) {
+        if self.hold_armed {
+            self.held_notes.push((params.clone(), method, res.clone()));
+            return;
+        }
         let ps = params.to_string();
         let hashes: Vec<String> = self.mon.keys().cloned().collect();
         for h in hashes {
@@ -809,6 +840,20 @@ impl W {
     }
 
     fn after_event(&mut self, ev: &Ev) {
+        if matches!(ev, Ev::Flush) {
+            self.hold_armed = false;
+        }
+        if self.hold_armed && matches!(ev, Ev::Answer(_) | Ev::Fault { .. } | Ev::Deliver(_) | Ev::Spawn(_) | Ev::Resolve(..) | Ev::End(..)) {
+            // held back: the plugin does not run yet; it will see this event together with the next one
+            self.hold_armed = false;
+            self.held_evs.push(ev.clone());
+            self.steps += 1;
+            return;
+        }
+        // answers that were held back reach the plugin now
+        for (p, m, r) in std::mem::take(&mut self.held_notes) {
+            self.note_answer(&p, m, &r);
+        }
         // run the plugin to quiescence
         let inc = self.inc.as_mut().unwrap();
         inc.rt.block_on(sched::quiesce());
@@ -876,7 +921,7 @@ impl W {
         }
         self.last_step_responses.clear();
         if let Ev::Deliver(t) = ev {
-            if self.cfg.templates[*t].class == Class::NotTrampoline && !reqs.is_empty() {
+            if self.cfg.templates[*t].class == Class::NotTrampoline && !reqs.is_empty() && self.held_evs.is_empty() {
                 let d = format!("{} caused {:?}", self.cfg.templates[*t].spec.name, reqs.iter().map(|r| r.label.clone()).collect::<Vec<_>>());
                 self.violate("C13", "no-side-effects", "delivery of a non-trampoline HTLC caused an RPC call".into(), d);
             }
@@ -940,7 +985,7 @@ impl W {
             let still: Vec<usize> = self
                 .held_for(&h)
                 .into_iter()
-                .filter(|t| matches!(self.cfg.templates[*t].class, Class::Trampoline { .. }) && !matches!(ev, Ev::Deliver(d) if d == t))
+                .filter(|t| matches!(self.cfg.templates[*t].class, Class::Trampoline { .. }) && !matches!(ev, Ev::Deliver(d) if d == t) && !self.held_evs.iter().any(|e| matches!(e, Ev::Deliver(d) if d == t)))
                 .collect();
             let died_here: Vec<String> = died.iter().filter(|t| self.hash_of_template(**t) == h).map(|t| self.cfg.templates[*t].spec.name.clone()).collect();
             if !died_here.is_empty() && !tramp.is_empty() {
@@ -961,6 +1006,7 @@ impl W {
             }
         }
         let _ = before_resp_live;
+        self.held_evs.clear();
         self.check_state_invariants();
         self.steps += 1;
     }
@@ -1170,7 +1216,7 @@ impl W {
                 // transition, before the environment does anything else (how often the future is polled is
                 // the implementation's business)
                 let _ = polls;
-                if !matches!(ev, Ev::Deliver(d) if *d == t) {
+                if !matches!(ev, Ev::Deliver(d) if *d == t) && !self.held_evs.iter().any(|e| matches!(e, Ev::Deliver(d) if *d == t)) {
                     self.violate("C13", "no-wait", "non-trampoline HTLC answered only after waiting on an external event".into(), format!("{} answered during {:?}", name, ev));
                 }
             }
@@ -1435,6 +1481,9 @@ impl W {
             }
         }
         self.last_step_responses.clear();
+        self.hold_armed = false;
+        self.held_evs.clear();
+        self.held_notes.clear();
         self.crashes += 1;
         crate::clock::advance_ms(downtime_ms);
         self.vtime_ms += downtime_ms;
@@ -1527,10 +1576,7 @@ impl W {
                 let r = self.sim.with(|s| s.end_pay(*c, o));
                 self.view.add(&("payend", c, format!("{:?}", r)));
                 self.trace.push(format!("  node -> {}", compact_res(&r)));
-                let t = self.vtime_ms;
-                if let Some(m) = self.mon.get_mut(&hash) {
-                    m.last_answer_ms = Some(t);
-                }
+                self.note_answer(&serde_json::json!({ "payment_hash": hash }), Method::Pay, &r);
                 self.after_event(ev);
             }
             Ev::Deliver(t) => {
@@ -1591,6 +1637,15 @@ impl W {
                 self.height_events += 1;
                 self.sim.with(|s| s.height = *h);
                 self.after_event(ev);
+            }
+            Ev::Flush => {
+                self.after_event(ev);
+            }
+            Ev::Hold => {
+                self.holds += 1;
+                self.hold_armed = true;
+                self.view.add(&"hold");
+                self.steps += 1;
             }
             Ev::Select(i) => {
                 sched::queue_select(*i);
@@ -1806,6 +1861,10 @@ impl Model for W {
             prefix_failed: false,
             req_labels: Vec::new(),
             stalls: 0,
+            holds: 0,
+            hold_armed: false,
+            held_evs: Vec::new(),
+            held_notes: Vec::new(),
             idle_advances: 0,
             a_events: 0,
             history: Vec::new(),
@@ -1885,7 +1944,7 @@ impl Model for W {
         let mut h = self.view.clone();
         self.sim.with(|s| s.digest(&mut h));
         h.add(&self.hstate);
-        h.add(&(self.vtime_ms, self.advances, self.height_events, self.crashes, self.faults, self.inc_no, self.told_height, self.idle_advances, self.stalls));
+        h.add(&(self.vtime_ms, self.advances, self.height_events, self.crashes, self.faults, self.inc_no, self.told_height, self.idle_advances, self.stalls, self.holds, self.hold_armed, self.held_evs.len()));
         h.add(&self.last_step_responses);
         h.add(&self.mon);
         h.value()
